@@ -23,7 +23,7 @@ from __future__ import annotations
 import ast
 from typing import Dict, List, Optional, Set, Tuple
 
-from sa.core import AnalysisError, Finding, FuncInfo, Program, Report, dotted, program, src, walk_no_nested
+from sa.core import norm_locals, AnalysisError, Finding, FuncInfo, Program, Report, dotted, program, src, walk_no_nested
 
 API = "vtlengine.API"
 EXE = "vtlengine.duckdb_transpiler.io._execution"
@@ -112,7 +112,17 @@ def run(rep: Report, tier: str) -> None:
     if len(visit_assign) != 1:
         raise AnalysisError("run(): `x = interpreter.visit(...)` not found exactly once")
     sem_var = visit_assign[0].targets[0].id
-    for dict_name in ("output_datasets", "output_scalars"):
+    # the locals that carry the structures = what run() passes as output_datasets= / output_scalars= to execute_queries
+    role_var: Dict[str, str] = {}
+    for c in walk_no_nested(frun.node):
+        if isinstance(c, ast.Call) and (dotted(c.func) or "").split(".")[-1] == "execute_queries":
+            for k in c.keywords:
+                if k.arg in ("output_datasets", "output_scalars") and isinstance(k.value, ast.Name):
+                    role_var[k.arg] = k.value.id
+    if set(role_var) != {"output_datasets", "output_scalars"}:
+        raise AnalysisError("run(): execute_queries(output_datasets=<name>, output_scalars=<name>) not found")
+    for role_name in ("output_datasets", "output_scalars"):
+        dict_name = role_var[role_name]
         stores = []
         for n in walk_no_nested(frun.node):
             if isinstance(n, (ast.Assign, ast.AnnAssign)):
@@ -122,9 +132,9 @@ def run(rep: Report, tier: str) -> None:
             if isinstance(n, ast.Call) and isinstance(n.func, ast.Attribute) and isinstance(n.func.value, ast.Name) and n.func.value.id == dict_name \
                     and n.func.attr in ("update", "setdefault", "pop", "clear", "__setitem__"):
                 stores.append(n)
-        rep.instance("R10.1", f"fill/{dict_name}", sample={"stores": [f"{frun.module.rel}:{s.lineno} {src(s)[:60]}" for s in stores]})
+        rep.instance("R10.1", f"fill/{role_name}", sample={"stores": [f"{frun.module.rel}:{s.lineno} {src(s)[:60]}" for s in stores]})
         if not stores:
-            raise AnalysisError(f"run(): no store into {dict_name}")
+            raise AnalysisError(f"run(): no store into {dict_name} ({role_name})")
         for s in stores:
             ok = False
             if isinstance(s, (ast.Assign, ast.AnnAssign)) and isinstance(s.value, ast.Name):
@@ -138,7 +148,7 @@ def run(rep: Report, tier: str) -> None:
                     sub = (s.targets[0] if isinstance(s, ast.Assign) else s.target)
                     ok = isinstance(sub.slice, ast.Name) and isinstance(p.target.elts[0], ast.Name) and sub.slice.id == p.target.elts[0].id
             if not ok:
-                rep.add(Finding("R10.1", f"R10.1/fill/{dict_name}/{' '.join(src(s).split())[:50]}", frun.module.rel, s.lineno, frun.qualname,
+                rep.add(Finding("R10.1", f"R10.1/fill/{role_name}/{' '.join(norm_locals(src(s), frun.node).split())[:50]}", frun.module.rel, s.lineno, frun.qualname,
                                 f"`{src(s)[:70]}` puts something other than the semantic pass's own result object (under its own name) into "
                                 f"{dict_name}: the returned structure is no longer the one semantic_analysis() reports"))
     # the dicts reach execute_queries and SQLTranspiler unchanged (keyword value is the bare name)
@@ -150,7 +160,7 @@ def run(rep: Report, tier: str) -> None:
             for k in c.keywords:
                 if k.arg in ("output_datasets", "output_scalars"):
                     rep.instance("R10.1", f"pass/{callee}/{k.arg}", sample={"argument": src(k.value)})
-                    if not (isinstance(k.value, ast.Name) and k.value.id == k.arg):
+                    if not (isinstance(k.value, ast.Name) and k.value.id == role_var[k.arg]):
                         rep.add(Finding("R10.1", f"R10.1/pass/{callee}/{k.arg}", frun.module.rel, c.lineno, frun.qualname,
                                         f"{callee}({k.arg}={src(k.value)[:50]}): the execution stage receives something other than the semantic pass's structures"))
     # fetch_result returns the object found in the dicts
@@ -238,7 +248,7 @@ def run(rep: Report, tier: str) -> None:
             rep.instance("R10.3", key, sample={"site": f"{f.module.rel}:{stmt.lineno}", "statement": src(stmt)[:80], "object_built_here": fresh})
             if fresh:
                 continue
-            rep.add(Finding("R10.3", f"R10.3/{f.qualname}/{' '.join(src(tgt).split())}", f.module.rel, stmt.lineno, f.qualname,
+            rep.add(Finding("R10.3", f"R10.3/{f.qualname}/{' '.join(norm_locals(src(tgt), f.node).split())}", f.module.rel, stmt.lineno, f.qualname,
                             f"`{' '.join(src(stmt).split())[:80]}` rewrites `{tgt.attr}` of a structure object produced by the semantic pass, during "
                             f"execution: run() then reports a different structure than semantic_analysis() for the same script"))
     rep.floor("pipeline functions scanned", nfun, 150)
